@@ -167,7 +167,14 @@ func genEng(cliTier bool) func(t *rapid.T) EngCase {
 			for _, ix := range tb.Indexes {
 				cnames = append(cnames, ix.Name)
 			}
+			for _, fk := range tb.FKs {
+				cnames = append(cnames, fk.Name)
+			}
+			for _, ck := range tb.Checks {
+				cnames = append(cnames, ck.Name)
+			}
 		}
+		c.Native = rapid.IntRange(0, 2).Draw(t, "native") == 0
 		if cliTier {
 			c.B = c.A.Clone()
 			for n := rapid.IntRange(1, 4).Draw(t, "nedits"); n > 0; n-- {
